@@ -196,10 +196,19 @@ class UdpClient(object):
 
                     r, w,_ = select.select([self.sock], [self.sock], [], 0)
 
-                    if r:
+                    # receive everything that arrived since the last frame.
+                    # reading one datagram per call lets a server that sends
+                    # faster than the game's frame rate fill the socket with
+                    # stale datagrams: acks arrive after their timeout and a
+                    # silent server is noticed late (bounded, so that one call
+                    # cannot be kept busy for ever)
+                    count = 0
+                    while r and count < 256:
                         datagram, addr = self.sock.recvfrom(Packet.RECV_SIZE)
                         hdr = PacketHeader.from_bytes(False, datagram)
                         self.conn._recv_datagram(hdr, datagram)
+                        count += 1
+                        r, _, _ = select.select([self.sock], [], [], 0)
 
                     t0 = self.conn.clock()
                     if t0 - self.conn.last_send_time > self.conn.send_interval:
